@@ -66,9 +66,9 @@ func natural(a, b Tok) string {
 	switch {
 	case needWS(a, b):
 		return " "
-	case b.S == "," || b.S == ")" || b.S == "}":
+	case b.S == "," || b.S == ")" || b.S == "}" || b.S == "]":
 		return ""
-	case a.S == "(" || a.S == "{":
+	case a.S == "(" || a.S == "{" || a.S == "[":
 		return ""
 	case b.K == "pq":
 		return ""
@@ -175,7 +175,27 @@ type Item struct {
 	// Agg/AggArg are set for a plain aggregate call fn(arg) (window statements).
 	Agg    string `json:"agg,omitempty"`
 	AggArg string `json:"agg_arg,omitempty"`
-	Kind   string `json:"kind,omitempty"` // col lit num fn arith case agg wfn
+	Kind   string `json:"kind,omitempty"` // col lit num fn arith case index agg wfn analytic
+	// Over is the OVER (...) clause of an analytic function item.
+	Over *Over `json:"over,omitempty"`
+}
+
+type Over struct {
+	Partition []string `json:"partition,omitempty"`
+	When      []Tok    `json:"when,omitempty"`
+}
+
+func (o *Over) toks() []Tok {
+	out := []Tok{kw("OVER"), p("(")}
+	if len(o.Partition) > 0 {
+		out = append(out, kws("PARTITION", "BY")...)
+		out = append(out, commaList(idents(o.Partition))...)
+	}
+	if len(o.When) > 0 {
+		out = append(out, kw("WHEN"))
+		out = append(out, o.When...)
+	}
+	return append(out, p(")"))
 }
 
 type OnPair struct {
@@ -469,6 +489,9 @@ func (s *Stmt) toks() []Tok {
 			continue
 		}
 		parts[i] = append([]Tok{}, it.Expr...)
+		if it.Over != nil {
+			parts[i] = append(parts[i], it.Over.toks()...)
+		}
 		if it.Alias != "" {
 			parts[i] = append(parts[i], kw("AS"), ident(it.Alias))
 		}
